@@ -325,6 +325,54 @@ fn add<V: Full>(prop: &mut Property, ctx: &Ctx) {
     }
 }
 
+/// memory limits beyond 32 bits of bytes: the PASERK field is a u64 count of bytes, Argon2 takes a u32 count of KiB.
+/// Thorough: the whole round trip (4 GiB, ~10 s per call). Quick: the wrap is started on its own thread and must not
+/// have been *refused* within two seconds (a refusal of valid parameters comes back at once; the derivation itself
+/// takes longer and is left to finish in the background).
+fn pbkw_4gib(prop: &mut Property, thorough: bool) {
+    use crate::backends::{V2, V4, V4S, Visitor, dispatch};
+    struct Run(bool);
+    impl Visitor for Run {
+        type Out = (Outcome, &'static str);
+        fn visit<V: Full>(self) -> Self::Out {
+            let mut o = Outcome::new();
+            let pbytes = [&(1u64 << 32).to_be_bytes()[..], &1u32.to_be_bytes()[..], &1u32.to_be_bytes()[..]].concat();
+            let key = keys::keyset::<V>(false, 0).locals[2].bytes.clone();
+            let base = format!("{}/pbkw-4gib", V::NAME);
+            if self.0 {
+                let params = crate::backends::params_from_bytes::<V>(&pbytes);
+                let wrapped = subject(|| pk::pw_wrap::<V, Local>(&key, b"pw", Some(&params)));
+                let expect = V::pbkw_prefix_len() + key.len() + V::tag_len().max(32);
+                check_roundtrip(&mut o, &base, false, &key, wrapped, expect, |s| subject(|| pk::pw_unwrap::<V, Local>(s, b"pw")));
+            } else {
+                let (tx, rx) = std::sync::mpsc::channel();
+                std::thread::spawn(move || {
+                    let params = crate::backends::params_from_bytes::<V>(&pbytes);
+                    let r = subject(|| pk::pw_wrap::<V, Local>(&key, b"pw", Some(&params)).map(|_| ()).map_err(|e| crate::payload::err_kind(&e)));
+                    let _ = tx.send(r);
+                });
+                match rx.recv_timeout(std::time::Duration::from_millis(2000)) {
+                    Err(_) => o.class("accepted-derivation-running"),
+                    Ok(Ok(Ok(()))) => o.class("roundtrip-ok"),
+                    Ok(other) => o.violate(format!("{base}/refused"), format!("valid cost parameters (memory limit 2^32 bytes, 1 pass, 1 lane) were refused at once: {other:?}"), json!({})),
+                }
+            }
+            (o, V::NAME)
+        }
+    }
+    let idxs = [V2::IDX, V4::IDX, V4S::IDX];
+    prop.subs.push(
+        Sub::new("pbkw-4gib", 3, "{paseto-v2, paseto-v4, paseto-v4-sodium}: password_wrap_with_params with an Argon2id memory limit of exactly 2^32 bytes (4 GiB, 1 pass, 1 lane), valid parameters: thorough: the wrap succeeds and unwraps to the key; quick: the wrap is not refused (it is still deriving after 2 s)", move |idx, describe| {
+            let (mut o, name) = dispatch(idxs[idx as usize], Run(thorough));
+            if describe {
+                o.sample = Some(json!({"backend": name, "memlimit_bytes": 1u64 << 32}));
+            }
+            o
+        })
+        .expensive(),
+    );
+}
+
 pub fn build(ctx: &Ctx) -> Property {
     let mut p = Property::new("C05", "exploration");
     add::<backends::V1>(&mut p, ctx);
@@ -333,6 +381,7 @@ pub fn build(ctx: &Ctx) -> Property {
     add::<backends::V3L>(&mut p, ctx);
     add::<backends::V4>(&mut p, ctx);
     add::<backends::V4S>(&mut p, ctx);
+    pbkw_4gib(&mut p, ctx.thorough());
     macro_rules! seq {
         ($V:ty) => {
             for sub in ["pie", "pbkw", "pke"] {
